@@ -477,7 +477,11 @@ class XMLReader(object):
 
         if insert_children:
             for child in children:
-                obj.append(child)
+                try:
+                    obj.append(child)
+                except (KeyError, ValueError) as exc:
+                    self.error("Could not add <%s> to <%s>: %s" %
+                               (child.format().name, root.tag, exc), root)
 
         return obj
 
